@@ -62,12 +62,13 @@ def certificateClauses (g cov : G) (deep : Bool) : List (String × Bool) :=
     | none => [("certificate-7-surjections-to-Z2", false)]
   else [])
 
-/-- one verdict: `cover` is the result of the public `pseudo_toroidal_cover` (sent on `yes`) -/
-def verdictClauses (g : G) (c : Cls) (reason : String) (cover : Option G) (corpus deep : Bool) :
+/-- one verdict: `cover` is the result of the public `pseudo_toroidal_cover` (sent on `yes`).
+    The MESSAGE of a `no` / `maybe` is not part of the property (it speaks of the verdict class
+    only) and is not looked at: a rewording of the diagnostics must not alarm. -/
+def verdictClauses (g : G) (c : Cls) (cover : Option G) (corpus deep : Bool) :
     List (String × Bool) :=
   [ ("harness-error-input-outside-domain", inDomain3d g),
     ("returns-a-verdict-without-panic", c != .panic),
-    ("reason-is-a-documented-one", reasonDocumented c reason),
     ("corpus-symbol-receives-yes", !corpus || c == .yes) ] ++
   (if c == .yes then
     match cover with
@@ -97,5 +98,87 @@ def coverConsistencyClauses (g : G) (covers : List G) (classes : List Cls) : Lis
     ("no-panic-on-symbol-or-cover", classes.all (· != .panic)),
     ("symbol-yes-then-no-cover-is-no", !(classes.headD .panic == .yes && (classes.drop 1).contains .no)),
     ("symbol-no-then-no-cover-is-yes", !(classes.headD .panic == .no && (classes.drop 1).contains .yes)) ]
+
+/-! ### the helpers of the cascade (hooks), from their mathematical meaning -/
+
+/-- the fields of an invariant string `n/label…/ori/edges/k/inv…/` -/
+structure InvFields where
+  labels : List String
+  ori : Nat
+  edges : Nat
+  invars : List Nat
+
+def parseInvariant (s : String) : Option InvFields :=
+  match s.splitOn "/" with
+  | [] => none
+  | nTok :: rest =>
+    match nTok.toNat? with
+    | none => none
+    | some n =>
+      let labels := rest.take n
+      match rest.drop n with
+      | oriTok :: edgesTok :: kTok :: tail =>
+        (match oriTok.toNat?, edgesTok.toNat?, kTok.toNat? with
+         | some ori, some edges, some k =>
+           if labels.length == n && tail.length == k + 1 && tail.getLast? == some "" then
+             ((tail.take k).mapM String.toNat?).map fun invs => ⟨labels, ori, edges, invs⟩
+           else none
+         | _, _, _ => none)
+      | _ => none
+
+/-- orientation class by definition: 2 oriented (no loops, bipartite), 1 weakly oriented
+    (bipartite when loops are ignored), 0 otherwise -/
+def orientationClass (g : G) : Nat :=
+  if g.bipartite then (if g.loopless then 2 else 1) else 0
+
+def ascendingStrings : List String → Bool
+  | a :: b :: rest => decide (a ≤ b) && ascendingStrings (b :: rest)
+  | _ => true
+
+/-- the full string of `orbifold_invariant` -/
+def invariantStringClauses (g : G) (panic : Bool) (inv : String) (_contains : Bool) : List (String × Bool) :=
+  [ ("returns-without-panic", !inDomain3d g || !panic) ] ++
+  (if panic then [] else
+    match parseInvariant inv with
+    | none => [("invariant-string-has-the-shape-n/labels/ori/edges/k/invariants/", false)]
+    | some f =>
+      [ ("orientation-field-is-the-orientation-class", f.ori == orientationClass g),
+        ("node-labels-ascending", ascendingStrings f.labels),
+        ("invariant-fields-are-H1-of-the-textbook-group",
+          !(SpecC09.validSymbol g) ||
+            (match abelianisation g with
+             | some h => f.invars == h
+             | none => true)) ])
+
+/-- number of subgroups of index ≤ 2 of `⟨1..n | rels⟩`: the homomorphisms to Z/2, i.e.
+    2^(n − rank over GF(2) of the exponent matrix) (every subgroup of index 2 is normal, so
+    classes = subgroups) -/
+def classesIndexLE2 (n : Nat) (rels : List (List Int)) : Nat :=
+  2 ^ (n - (gf2Echelon (rels.map maskOfWord)).length)
+
+/-- `bad_subgroup_count`: bad iff the number of conjugacy classes of subgroups of index ≤ `idx`
+    differs from `expected` (oracles for index 1 and 2) -/
+def subgroupCountClauses (n : Nat) (rels : List (List Int)) (idx expected : Nat) (panic out : Bool) :
+    List (String × Bool) :=
+  let lettersOK := rels.all (SpecC14.wordInRange n)
+  [ ("harness-error-letters-out-of-range", lettersOK),
+    ("returns-without-panic", !panic) ] ++
+  (if panic || !lettersOK then [] else
+    [ ("index-1-one-class", idx != 1 || out == (1 != expected)),
+      ("index-2-classes-are-the-homomorphisms-to-Z2", idx != 2 || out == (classesIndexLE2 n rels != expected)) ])
+
+/-- `bad_subgroup_invariants`: bad iff SOME subgroup of index ≤ `idx` has abelian invariants other
+    than `expected`; the whole group is one of them (H₁ by the Spec's own Smith form) -/
+def subgroupInvariantsClauses (n : Nat) (rels : List (List Int)) (idx : Nat) (expected : List Nat)
+    (panic out : Bool) : List (String × Bool) :=
+  let lettersOK := rels.all (SpecC14.wordInRange n)
+  [ ("harness-error-letters-out-of-range", lettersOK),
+    ("returns-without-panic", !panic) ] ++
+  (if panic || !lettersOK then [] else
+    match invariantsOfRows n (rels.map rowOfWord) with
+    | none => []
+    | some h =>
+      [ ("whole-group-with-other-homology-is-bad", idx == 0 || h == expected || out),
+        ("index-1-bad-iff-homology-differs", idx != 1 || out == (h != expected)) ])
 
 end DSymVerif.SpecC17
